@@ -123,16 +123,25 @@ Proof.
   destruct (owner_ok v o s); auto.
   destruct W as (Hg & Hnd & Hfl & Hfv & Hlv).
   assert (Hnf : ~ In sl (p_free p)) by (intros Hin; rewrite (Hfl _ Hin) in E; discriminate).
+  assert (Hls : forall sl', sl' = sl \/ lease_of p sl' = None ->
+                assoc sl' (unassoc sl (p_leases p)) = None).
+  { intros sl' [->|H]; [apply assoc_unassoc_eq|].
+    destruct (N.eq_dec sl sl') as [->|Hn]; [apply assoc_unassoc_eq|rewrite assoc_unassoc_neq; auto]. }
   unfold pool_wf, valid_slot in *. simpl p_geom; simpl p_free.
-  repeat split; auto.
-  - apply nodup_snoc; auto.
-  - intros sl' Hin. unfold lease_of; simpl. apply in_app_or in Hin. destruct Hin as [Hin|[<-|[]]].
-    + assert (sl <> sl') by (intros ->; contradiction). rewrite assoc_unassoc_neq; auto. apply Hfl; auto.
-    + apply assoc_unassoc_eq.
-  - intros sl' Hin. apply in_app_or in Hin. destruct Hin as [Hin|[<-|[]]]; auto. eapply Hlv; exact E.
-  - intros sl' s'. unfold lease_of; simpl. destruct (N.eq_dec sl sl') as [->|Hn].
-    + rewrite assoc_unassoc_eq. discriminate.
-    + rewrite assoc_unassoc_neq; auto. apply Hlv.
+  destruct (assignable (p_geom p) sl).
+  - repeat split; auto.
+    + apply nodup_snoc; auto.
+    + intros sl' Hin. unfold lease_of; simpl. apply Hls. apply in_app_or in Hin.
+      destruct Hin as [Hin|[<-|[]]]; auto.
+    + intros sl' Hin. apply in_app_or in Hin. destruct Hin as [Hin|[<-|[]]]; auto. eapply Hlv; exact E.
+    + intros sl' s'. unfold lease_of; simpl. destruct (N.eq_dec sl sl') as [->|Hn].
+      * rewrite assoc_unassoc_eq. discriminate.
+      * rewrite assoc_unassoc_neq; auto. apply Hlv.
+  - repeat split; auto.
+    + intros sl' Hin. unfold lease_of; simpl. apply Hls. right. apply Hfl; exact Hin.
+    + intros sl' s'. unfold lease_of; simpl. destruct (N.eq_dec sl sl') as [->|Hn].
+      * rewrite assoc_unassoc_eq. discriminate.
+      * rewrite assoc_unassoc_neq; auto. apply Hlv.
 Qed.
 
 (* ------------------------------------------------------------------ registry *)
